@@ -301,62 +301,8 @@ func runC08(c *Ctx) {
 	// there every way out of the delivery routine goes through the hand-over to Next (whose other alternatives are the
 	// receiver closing and the caller giving up). A return in between — say, on a failed republication — leaves the
 	// CID marked although nobody was told: the retry is dropped as a duplicate and the head is never synced.
-	if dl := c.Role("announce.deliver"); dl == nil {
-		c.Unk("C08.L7-accepted-announcement-handed-on", "announce › delivery routine", token.NoPos, "not found")
-	} else {
-		// (the routine may be split into phases: the select is looked for in it and in its single-caller steps)
-		var sel *ssa.Select
-		var selFn *ssa.Function
-		for _, f := range c.Funcs("announce") {
-			if f.SSA != dl && c.routineOf(f.SSA) != dl {
-				continue
-			}
-			instrs(f.SSA, func(in ssa.Instruction) {
-				if sl, ok := in.(*ssa.Select); ok {
-					for _, st := range sl.States {
-						if st.Dir == types.SendOnly && strings.HasSuffix(st.Send.Type().String(), "announce.Announce") {
-							sel, selFn = sl, f.SSA
-						}
-					}
-				}
-			})
-		}
-		if sel == nil {
-			c.Unk("C08.L7-accepted-announcement-handed-on", c.short(dl.String()), dl.Pos(), "no hand-over select found in the delivery routine or its steps")
-		} else {
-			// the checks: calls (of this package, returning only an error) whose nil edge the select lies under
-			var checks []*ssa.Call
-			instrs(selFn, func(in ssa.Instruction) {
-				call, isCall := in.(*ssa.Call)
-				if !isCall {
-					return
-				}
-				callee := call.Call.StaticCallee()
-				if callee == nil || !samePkgBody(selFn, callee) || callee.Signature.Results().Len() != 1 || !isErrorType(callee.Signature.Results().At(0).Type()) {
-					return
-				}
-				if _, g := c.Guarded(sel, EqNil(Is(c.E(call))), true); g {
-					checks = append(checks, call)
-				}
-			})
-			ok, path := allPathsPass(selFn, func(in ssa.Instruction) bool {
-				if in == ssa.Instruction(sel) {
-					return true
-				}
-				if _, isRet := in.(*ssa.Return); isRet {
-					for _, ck := range checks {
-						if _, failed := c.GuardedB(in.Block(), EqNil(Is(c.E(ck))), false); failed {
-							return true
-						}
-					}
-				}
-				return false
-			})
-			c.Check(ok, "C08.L7-accepted-announcement-handed-on", c.short(selFn.String())+" › accepted ⇒ handed on", sel.Pos(),
-				"every way through the routine reaches the hand-over select, except where the check itself refuses", "the delivery routine can return after the announcement was accepted (its CID marked as seen) without handing it on ("+path+"): the announcement is lost and its repetition is dropped as a duplicate")
-		}
-		c.Floor("C08.L7-accepted-announcement-handed-on", 1)
-	}
+	acceptedAnnouncementHandedOn(c, "C08.L7-accepted-announcement-handed-on")
+	c.Floor("C08.L7-accepted-announcement-handed-on", 1)
 	// ---- L5 atomic section (known finding F15) -----------------------------------------------------
 	c08AtomicSection(c, all)
 }
@@ -532,6 +478,11 @@ func c08OneOutcome(c *Ctx, rule string, handler *ssa.Function, take CallSite) []
 		}
 		if !(take.In.Block() == b || take.In.Block().Dominates(b)) {
 			continue // before the take (abandoned on cancelled context)
+		}
+		if tc, isCall := take.In.(*ssa.Call); isCall {
+			if _, empty := c.GuardedB(b, EqNil(Is(c.E(tc))), true); empty {
+				continue // the slot was empty: nothing was taken, nothing to report
+			}
 		}
 		key := c.short(handler.String()) + " › return"
 		var outcomes []string
@@ -989,4 +940,63 @@ func handlerLookupCreateAtomic(c *Ctx, rule string) {
 		c.Unk(rule, "dagsync › handler lookup-or-create", token.NoPos, "not found")
 	}
 	c.Floor(rule, 1)
+}
+
+// acceptedAnnouncementHandedOn: see C08.L7; shared by C09 (an allowed, unseen announcement is delivered).
+func acceptedAnnouncementHandedOn(c *Ctx, rule string) {
+	if dl := c.Role("announce.deliver"); dl == nil {
+		c.Unk(rule, "announce › delivery routine", token.NoPos, "not found")
+	} else {
+		// (the routine may be split into phases: the select is looked for in it and in its single-caller steps)
+		var sel *ssa.Select
+		var selFn *ssa.Function
+		for _, f := range c.Funcs("announce") {
+			if f.SSA != dl && c.routineOf(f.SSA) != dl {
+				continue
+			}
+			instrs(f.SSA, func(in ssa.Instruction) {
+				if sl, ok := in.(*ssa.Select); ok {
+					for _, st := range sl.States {
+						if st.Dir == types.SendOnly && strings.HasSuffix(st.Send.Type().String(), "announce.Announce") {
+							sel, selFn = sl, f.SSA
+						}
+					}
+				}
+			})
+		}
+		if sel == nil {
+			c.Unk(rule, c.short(dl.String()), dl.Pos(), "no hand-over select found in the delivery routine or its steps")
+		} else {
+			// the checks: calls (of this package, returning only an error) whose nil edge the select lies under
+			var checks []*ssa.Call
+			instrs(selFn, func(in ssa.Instruction) {
+				call, isCall := in.(*ssa.Call)
+				if !isCall {
+					return
+				}
+				callee := call.Call.StaticCallee()
+				if callee == nil || !samePkgBody(selFn, callee) || callee.Signature.Results().Len() != 1 || !isErrorType(callee.Signature.Results().At(0).Type()) {
+					return
+				}
+				if _, g := c.Guarded(sel, EqNil(Is(c.E(call))), true); g {
+					checks = append(checks, call)
+				}
+			})
+			ok, path := allPathsPass(selFn, func(in ssa.Instruction) bool {
+				if in == ssa.Instruction(sel) {
+					return true
+				}
+				if _, isRet := in.(*ssa.Return); isRet {
+					for _, ck := range checks {
+						if _, failed := c.GuardedB(in.Block(), EqNil(Is(c.E(ck))), false); failed {
+							return true
+						}
+					}
+				}
+				return false
+			})
+			c.Check(ok, rule, c.short(selFn.String())+" › accepted ⇒ handed on", sel.Pos(),
+				"every way through the routine reaches the hand-over select, except where the check itself refuses", "the delivery routine can return after the announcement was accepted (its CID marked as seen) without handing it on ("+path+"): the announcement is lost and its repetition is dropped as a duplicate")
+		}
+	}
 }
